@@ -176,3 +176,27 @@ PROPS["C10"] = dict(
              shards=dict(quick=8, thorough=16), timeout=dict(quick=300, thorough=1800)),
     ],
 )
+
+PROPS["C01"] = dict(
+    level="exploration",
+    manifest=dict(
+        text=("Reference-matcher oracle at three observation points. (1) subscriptions.Tree.Walk: exhaustive over all 935 filters x 339 topics of "
+              "up to 4 levels over {a,b,c,empty,+,#}, one filter at a time; (2) sets of 2-12 filters (tree and SubscriptionsState.ByPattern) x all "
+              "339 topics, plus deep/UTF-8 topics — the answer for a set must be the union of the single answers; (3) subscribe/unsubscribe/"
+              "re-subscribe/DeleteSession histories on a real distributed.State versus a state built directly from the final active set. "
+              "(4) end to end through a running in-process broker (e2e_test.go, when present in the run plan)."),
+        note="Trusted: Go toolchain, rapid, the 15-line reference matcher (unit-tested on the MQTT 3.1.1 section 4.7 examples). Filters are valid MQTT filters; '$'-topics are not special-cased; topics contain no wildcard characters.",
+        technique="exhaustive small-scope enumeration + rapid generated filter sets and subscription histories against a reference MQTT matcher",
+    ),
+    rule=("pair cases: (filter, topic) with the filter alone in the index; set cases: 2-12 generated filters, all universe topics (or 40+ deep "
+          "topics); history cases: 1-30 sub/unsub/unsuball ops over 4 sessions x 6 drawn filters + a rebuild order. Non-trivial: pair = filter "
+          "or topic contains a wildcard or an empty level; set = two filters share a prefix; history = a subscribe happens after an unsubscribe. "
+          "Distinct = distinct case."),
+    assumptions=["valid MQTT filters ('#' last, wildcards fill a level)", "topic names non-empty and wildcard-free", "'$' topics not special-cased (the broker prefixes every topic with the mount point anyway)"],
+    runs=[
+        dict(name="regress", pkg="c01", run="TestRegress"),
+        dict(name="pairs", pkg="c01", run="TestPairs", shards=dict(quick=2, thorough=4)),
+        dict(name="sets", pkg="c01", run="TestSets", checks=dict(quick=8000, thorough=300000), shards=dict(quick=8, thorough=16), timeout=dict(quick=300, thorough=1800)),
+        dict(name="histories", pkg="c01", run="TestHistories", checks=dict(quick=20000, thorough=400000), shards=dict(quick=4, thorough=16), timeout=dict(quick=300, thorough=1800)),
+    ],
+)
